@@ -225,6 +225,35 @@ H("c09_q_std_messages_plain", "C09", "c09::std_messages_plain", "every standard 
   "double quote (so formatting a standard error item is the custom-message case)", "all standard variants", cap_s=600,
   mem_gb=4, unwind=64, also=["C13"])
 
+# ---------------------------------------------------------------------------- C10 (K-fmt part)
+for u, tier in ((1, "q"), (2, "q"), (3, "q")):
+    H(f"c10_{tier}_framing_array_u{u}", "C10", f"c10::framing_array::<{u}, _>",
+      f"0..{u} response units, each with no / one-level / two-level header and 1..3 data elements (bool or character "
+      f"data), through the real message_start / response_unit / header / data / finish / message_end on an ArrayVec: bytes "
+      f"== reference framer (';' between units, ',' between data, header + space, one final NL iff output)",
+      f"all scripts of <= {u} units x <= 3 data", cap_s=900, mem_gb=4, unwind=16 * u + 4, sample=(u == 1))
+H("c10_ta_framing_vec_u1", "C10", "c10::framing_vec::<1, _>", "same script on the growable Vec<u8> formatter",
+  "all scripts of <= 1 unit x <= 3 data", cap_s=3600, mem_gb=8, unwind=20)
+
+# ---------------------------------------------------------------------------- C11 (K-fmt part; built WITHOUT alloc)
+for cap in range(0, 9):
+    H(f"c11_q_formatter_cap{cap}", "C11", f"c11::formatter::<{cap}, _>",
+      f"4 arbitrary primitive writes (push_byte, push_str <= 3 bytes, data_separator, message_end, response_unit) on "
+      f"ArrayVec<u8,{cap}> vs a reference byte vector: a write that fits appends exactly its bytes, one that does not "
+      f"returns -225 and leaves the buffer unchanged; never beyond the capacity, never a panic",
+      f"capacity {cap}; all 4-step scripts", cap_s=600, mem_gb=3, unwind=14, noalloc=True, sample=(cap == 3))
+for el in ("u16", "i32", "hex_u16", "bool", "string", "block", "char_expr", "error", "list", "enum"):
+    H(f"c11_{'t' if el == 'error' else 'q'}_element_{el}", "C11", f"c11::element_{el}",
+      f"ResponseData element '{el}' formatted into a formatter with a symbolic byte budget: fits => complete and identical "
+      f"bytes; does not fit => returns exactly the formatter's -225, written bytes are a prefix, no write after the failure",
+      "every budget 0..48; element value symbolic", cap_s=(3600 if el == "error" else 900),
+      mem_gb=(10 if el in ("error", "string") else 5), unwind=(12 if el == "string" else 20), noalloc=True,
+      stubset=("ascii" if el in ("string", "error", "char_expr") else "none"))
+for cap in (0, 1, 3, 6, 7):
+    H(f"c11_q_unit_cap{cap}", "C11", f"c11::unit::<{cap}, _>", f"a response unit of two data elements (u16, bool) on "
+      f"ArrayVec<u8,{cap}>: fits => bytes of the growable result; does not fit => finish returns -225 (first error latched)",
+      f"capacity {cap}; every u16 / bool", cap_s=600, mem_gb=3, unwind=12, noalloc=True, also=["C05"])
+
 # ---------------------------------------------------------------------------- C12
 for n in range(1, 7):
     for l in range(0, n + 1):
@@ -629,6 +658,43 @@ PROPS["C09"] = {
                   "(F14, own parser returns strings with quotes still doubled) is kept as a witness harness.",
     "level_note": "Trusted: Kani/CBMC/CaDiCaL; the decoders in checks/c09.rs; lexical-core's integer writer is real code "
                   "under test; the float printer is outside the claim.",
+}
+
+PROPS["C10"] = {
+    "bounds": {"quick": "K-fmt: all scripts of <= 3 response units, each with no / one-level / two-level header and 1..3 "
+                        "data elements, on the ArrayVec formatter",
+               "thorough": "plus the dispatcher's two loop exits at token level (RL-tok family): every lexable 3-token "
+                           "script on a flat tree - message_end exactly once iff some query produced output"},
+    "outside": "queries that produce no output at all (the quantifier says 1..n data elements); data element formatting "
+               "itself (C09); scripts longer than the bound; whole-message runs at byte level (not encodable, DESIGN.md 3) "
+               "- the dispatcher part is decided at token level in the thorough tier only",
+    "assumptions": ["the unit loop of run_tokens drives the formatter exactly as the K-fmt script does (message_start, "
+                    "response_unit per query, message_end iff non-empty); that wiring is the RL-tok obligation"],
+    "level_text": "Bounded model checking of the real framing code (Formatter impl + ResponseUnit) under a symbolic script "
+                  "of units/headers/data against a reference framer, byte for byte; the dispatcher's exits (where the "
+                  "trailing-semicolon defect lived) are decided by the token-level run harnesses in the thorough tier.",
+    "level_note": "Trusted: Kani/CBMC/CaDiCaL; the reference framer in checks/c10.rs; token-level abstraction of the "
+                  "lexer for the dispatcher part (composition with C04).",
+}
+PROPS["C11"] = {
+    "bounds": {"quick": "Formatter for ArrayVec<u8,CAP>, CAP = 0..8, all scripts of 4 primitive writes; every ResponseData "
+                        "impl (u16, i32, Hex<u16>, bool, string, block, character, expression, list, enum) under every "
+                        "write budget 0..48; a two-element response unit at capacities 0,1,3,6,7",
+               "thorough": "plus Error items under a budget; message-level exhaustion through the dispatcher at token "
+                           "level (RL-tok with small capacities)"},
+    "outside": "capacities > 8 at Formatter level (the code is uniform in CAP); whole-message runs at byte level; the "
+               "allocation claim is a BUILD-TIME fact, not a solver verdict: these harnesses are compiled against scpi "
+               "with neither the alloc nor the std feature, a configuration in which scpi/src/lib.rs has no `extern crate "
+               "alloc`, so no allocating API is nameable on any explored path",
+    "assumptions": ["(a) + (b) compose: fits => identical bytes, does not fit => -225 at the first overflowing write, for "
+                    "any sequence of elements, because every element returns exactly the formatter's first error and "
+                    "writes nothing after it"],
+    "level_text": "Bounded model checking at two levels: the fixed-capacity Formatter implementation against a reference "
+                  "byte vector for every capacity 0..8 and every 4-write script (no write beyond capacity, atomic failure "
+                  "with -225), and every ResponseData implementation against a formatter with a symbolic byte budget "
+                  "(returns the formatter's first error, stops writing).",
+    "level_note": "Trusted: Kani/CBMC/CaDiCaL; Kani's model of ArrayVec's MaybeUninit storage; the no-alloc build "
+                  "configuration of the harness crate for these harnesses.",
 }
 
 # properties whose check is still being built (kept current as the work proceeds)
